@@ -377,6 +377,8 @@ pub fn fabricate(outcome: &Outcome) -> io::Result<ExitStatus> {
 pub struct SimWorld {
     pub log: SharedLog,
     pub outcomes: Vec<Outcome>,
+    /// outcome of spawns beyond the script
+    pub default_outcome: Outcome,
     pub spawn_count: usize,
     pub spawn_budget: usize,
     pub input: Option<SimStream>,
@@ -397,7 +399,7 @@ impl World for SimWorld {
             return Err(io::Error::from_raw_os_error(libc::EAGAIN));
         }
         self.spawn_budget -= 1;
-        let outcome = self.outcomes.get(k).cloned().unwrap_or(Outcome::Exit(0));
+        let outcome = self.outcomes.get(k).cloned().unwrap_or_else(|| self.default_outcome.clone());
         let mut argv = vec![B(req.program.as_bytes().to_vec())];
         argv.extend(req.args.iter().map(|a| B(a.as_bytes().to_vec())));
         let cwd = req
